@@ -807,4 +807,46 @@ example : ∃ s1 s2, Ctl.run Ctl.init [.hbStart, .hbTimer, .hbBeatFail 2, .rcSte
     s2.cl = .done ∧ s2.hb = .exited ∧ s2.rc = .free ∧ s2.state = .closing := by
   refine ⟨_, _, rfl, by decide, by decide, by decide, rfl, by decide, by decide, by decide, by decide⟩
 
+/-! ## The reconnection-policy retry loop of hostConnPool.connect() (`Model/PoolCtl.lean`, namespace `Retry`)
+
+FULL PROPERTY: `∀ n f, (Retry.connect n f).1 ≠ .nilNoErr` — a connect that reports no error hands a connection to the
+pool. It does NOT hold for the code that exists: a ReconnectionPolicy whose GetMaxRetries() is 0 makes the loop body
+never run, connect() goes on with conn == nil and err == nil (`C17_cex_connect_zero_retries_nil_conn`, proposed finding
+KF-C17-5). `C17_connect_conn_or_error_partial` excludes exactly `n = 0`. -/
+
+/-- the retry loop, for every policy bound n ≥ 1 and every sequence of attempt outcomes: it returns a connection or an
+    error, never more than n attempts, the connection is the first successful attempt's and everything before it was a
+    retryable failure — PARTIAL: n ≥ 1 -/
+theorem C17_connect_conn_or_error_partial (n : Nat) (f : Nat → Retry.Dial) (hn : 1 ≤ n) :
+    (Retry.connect n f).1 ≠ .nilNoErr ∧ (Retry.connect n f).2 ≤ n ∧ 1 ≤ (Retry.connect n f).2 ∧
+    ∀ k, (Retry.connect n f).1 = .conn k → f k = .ok ∧ (Retry.connect n f).2 = k + 1 ∧ ∀ j, j < k → f j = .temp := by
+  obtain ⟨a, _, c, d⟩ := C17Retry.go_spec f n 0 false
+  refine ⟨?_, by simpa [Retry.connect] using a, ?_, ?_⟩
+  · intro h; have := (d h).1; omega
+  · cases n with
+    | zero => omega
+    | succ m =>
+      simp only [Retry.connect, Retry.go]
+      cases f 0 <;> simp
+      exact (C17Retry.go_spec f m 1 true).2.1
+  · intro k hk
+    obtain ⟨_, _, c3, c4, c5⟩ := c k hk
+    exact ⟨c3, c4, fun j hj => c5 j (Nat.zero_le _) hj⟩
+
+/-- the attempts never exceed the policy's bound, whatever it is (also 0) -/
+theorem C17_connect_attempts_bounded (n : Nat) (f : Nat → Retry.Dial) : (Retry.connect n f).2 ≤ n := by
+  simpa [Retry.connect] using (C17Retry.go_spec f n 0 false).1
+
+/-- kernel-checked counterexample to the full statement: GetMaxRetries() = 0 — no attempt, no error, no connection; an
+    open pool appends the nil connection (Pick then dereferences it; with a keyspace configured connect() itself does) -/
+theorem C17_cex_connect_zero_retries_nil_conn (f : Nat → Retry.Dial) :
+    Retry.connect 0 f = (.nilNoErr, 0) ∧ Retry.appended (Retry.connect 0 f).1 = (1, 1) := by
+  simp [Retry.connect, Retry.go, Retry.appended]
+
+/-- non-vacuity: two retryable failures, then a connection (3 attempts allowed); a non-temporary OpError ends the loop -/
+example : Retry.connect 3 (fun i => if i < 2 then .temp else .ok) = (.conn 2, 3) ∧
+    Retry.connect 3 (fun i => if i = 0 then .temp else .perm) = (.err, 2) ∧
+    Retry.connect 2 (fun _ => .temp) = (.err, 2) := by
+  refine ⟨?_, ?_, ?_⟩ <;> decide
+
 end C17
